@@ -12,6 +12,7 @@ Failure classes
                                                              of the TORRENT (input derived, see _features), or "plain"
   C13:<v>:counted-not-present:<single-file|multi-file>       returned count > number of files present in the destination
   C13:<v>:empty-file-missing                                 only zero-length files are missing (debatable reading)
+  C13:hybrid:single-file-nested                              verifies 100% in the v2 view, but the single file sits at <dest>/<name>/<name>
   C13:<v>:<dim>=<value>:<symptom>                            the plain variant of the same torrent (original layout in one
                                                              search directory, no decoys, absolute destination, neutral cwd,
                                                              one metafile) passes and reverting <dim> makes this case pass
@@ -297,7 +298,7 @@ def _c13_eval(case):
             return [(f"raised:{err}", msg, "rebuild completes and restores every file")]
         present = [os.path.join(dp, f) for dp, _, fs in os.walk(destabs) for f in fs]
         layout = "single-file" if all(t["single"] for t in env["torrents"]) else "multi-file"
-        bad, empties_missing = [], []
+        bad, empties_missing, nested = [], [], []
         for t in env["torrents"]:
             root = os.path.join(destabs, t["name"])
             try:
@@ -314,6 +315,8 @@ def _c13_eval(case):
                         missing.append("/".join(comps) or t["name"])
                 bad.append((t, pct, missing))
             else:
+                if t["single"] and version == 3 and not os.path.isfile(root):
+                    nested.append(t["name"])
                 for comps, data in t["files"]:
                     if not data:
                         p = os.path.join(root, *comps)
@@ -328,6 +331,10 @@ def _c13_eval(case):
             else:
                 feats = sorted({_features(t["spec"], version, pl, case.get("creator", "real")) for t, _, _ in bad})
                 out.append((f"incomplete:{'|'.join(feats)}", obs, "100% for every metafile"))
+        elif nested:
+            # a hybrid metafile with info.length says single file: its place is <dest>/<name>.  (A pure v2 metafile does not say
+            # whether {name: leaf} is a file or a one-file directory, so the reference recheck accepts both layouts.)
+            out.append(("single-file-nested", f"single-file torrents {nested} were placed as <dest>/<name>/<name>", "<dest>/<name> is the file"))
         elif empties_missing:
             out.append(("empty-file-missing", f"verifies 100% but zero-length files {empties_missing} were not created",
                         "full directory structure"))
